@@ -1,4 +1,5 @@
 //! shared machinery (DESIGN.md sec. 3)
 pub mod refalg;
 pub mod refmat;
+pub mod matgen;
 pub mod sc;
